@@ -203,6 +203,29 @@ func c06Callbacks(c *Ctx) {
 			Barrier: CallsTo(declareLost)}, "frames are re-queued only for a packet that was removed from the history in the same step")
 	}
 
+	// a packet declared lost leaves bytes-in-flight and has its frames re-queued, unless it is a
+	// path probe (tracked separately) or not ack-eliciting (never counted, nothing to re-queue)
+	rmBIF := c.obj(ah, "sentPacketHandler", "removeFromBytesInFlight")
+	isProbe := c.fld(ah, "packet", "isPathProbePacket")
+	isAE := c.obj(ah, "packet", "IsAckEliciting")
+	nDL := 0
+	for _, name := range []string{"detectLostPackets", "QueueProbePacket", "MigratedPath"} {
+		root := c.fn(ah, "sentPacketHandler", name)
+		for _, f := range withAnon(root) {
+			if countInstr(f, CallsTo(declareLost)) == 0 {
+				continue
+			}
+			nDL++
+			c.FuncsSet[funcName(f)] = true
+			exempt := OrEdge(EdgeRel(BoolTrue(Load(isProbe)), false), EdgeRel(BoolTrue(CallTo(isAE, -1)), true))
+			c.cut(R, "pair:DeclareLost ⇒ removed from bytes in flight@"+name, &Cut{Fn: f, Start: CallsTo(declareLost), Target: isReturn, Barrier: CallsTo(rmBIF), Edge: exempt},
+				"a packet taken out of the history as lost no longer counts as in flight (path probes and non-ack-eliciting packets excepted)")
+			c.cut(R, "pair:DeclareLost ⇒ frames re-queued@"+name, &Cut{Fn: f, Start: CallsTo(declareLost), Target: isReturn, Barrier: CallsTo(qObj), Edge: exempt},
+				"the frames of a packet declared lost are reported lost (path probes and non-ack-eliciting packets excepted)")
+		}
+	}
+	c.Floor(R, "functions declaring packets lost", nDL, 3)
+
 	// OnAcked iteration followed by history.Remove before the next acked packet is fetched
 	d := c.fn(darap[0], darap[1], darap[2])
 	remove := c.obj(ah, "sentPacketHistory", "Remove")
